@@ -369,7 +369,13 @@ func startWatchdog(x *Ctx, budget time.Duration, heapLimit uint64) {
 		var last uint64
 		var since time.Time
 		for {
+			t0 := time.Now()
 			time.Sleep(100 * time.Millisecond)
+			if time.Since(t0) > 2*time.Second {
+				// this goroutine itself was not scheduled for seconds: the whole process (or machine) was stalled, which
+				// says nothing about the unit under test — restart its clock
+				since = time.Now()
+			}
 			s := atomic.LoadUint64(&wdSeq)
 			if s == 0 {
 				last = 0
